@@ -22,7 +22,7 @@ def run(rep, tier, seed):
             for i, line in enumerate(f):
                 if i == 4242:
                     rep.sample(json.loads(line))
-        replay_vectors(rep, exe, "replay-C04", vec, timeout=3000)
+        replay_vectors(rep, exe, "replay-C04", vec, timeout=3000, shards=6)
     rep.exhaustive = True
 
 def replay(path):
